@@ -42,7 +42,11 @@ def extract(f, kind, target=None, when=None, index=None):
     out = []
     for conds, e, env in rs:
         ct = cond_text(conds)
-        if when is not None and not all(w in ct for w in ([when] if isinstance(when, str) else when)):
+        if isinstance(when, str) and when.startswith("="):
+            # exact match of the innermost guard (with polarity)
+            if not conds or cond_text(conds[-1:]) != when[1:]:
+                continue
+        elif when is not None and not all(w in ct for w in ([when] if isinstance(when, str) else when)):
             continue
         if e is None:
             continue
@@ -55,7 +59,7 @@ def extract(f, kind, target=None, when=None, index=None):
     return out
 
 
-def check(eng, R, rule, cname, fname, kind, spec, target=None, when=None, what="", index=None, not_none=True, rename=None):
+def check(eng, R, rule, cname, fname, kind, spec, target=None, when=None, what="", index=None, not_none=True, rename=None, known=()):
     p = eng.p
     f = get_func(p, cname, fname)
     forms = extract(f, kind, target, when, index)
@@ -66,7 +70,7 @@ def check(eng, R, rule, cname, fname, kind, spec, target=None, when=None, what="
     sp = norm_spec(spec, rename)
     sp_leaves = leaves(ast.parse(spec, mode="eval").body)
     for ct, form, lv in forms:
-        res, detail = compare(form, sp, lv, sp_leaves)
+        res, detail = compare(form, sp, lv, sp_leaves, known)
         if res == "unknown":
             raise AnalysisError("formula rule %s at %s: %s (code: %s)" % (rule, f.qualname, detail, form.canon()[:200]))
         R.ob(rule, construct, res == "equal", (f.file, f.lineno),
